@@ -134,7 +134,7 @@ def run_property(prop, module, root, tier, seed):
     try:
         module.check(ctx)
         for r in ctx.rules:
-            if r.instances < r.floor:
+            if r.instances < r.floor and not r.failed:
                 raise AnalysisError('rule %s (%s) matched %d instance(s), floor is %d: the extractor '
                                     'no longer recognises the code it was confirmed on'
                                     % (r.id, r.title, r.instances, r.floor))
@@ -157,8 +157,8 @@ def run_property(prop, module, root, tier, seed):
     if status == 2:
         print('ANALYSIS-ERROR property=%s %s' % (prop, err))
     replay = None
-    if new and status != 2:
-        status = 1
+    if new:
+        status = 1      # a concrete finding outranks "part of the code was not recognised"
     evdir = os.environ.get('GILINT_EVIDENCE_DIR') or os.path.join(VERIF, 'evidence')
     if new:
         os.makedirs(os.path.join(evdir, 'replay'), exist_ok=True)
